@@ -151,12 +151,12 @@ Definition obs_of_built (g : built) : built_obs :=
        (f_name (b_func g)) (f_doc (b_func g)) (f_module (b_func g))
        (f_dict (b_func g)) (f_async (b_func g)).
 
-Definition model_case (f : pyfunc) (steps : list step) (fwd : bool) (calls : list call) : c13_case :=
-  mkCase f steps fwd calls (func_sig f) (f_async f) (map (call_func f) calls)
+Definition model_case (f : pyfunc) (steps : list step) (fwd : bool) (partial : nat) (calls : list call) : c13_case :=
+  mkCase f steps fwd partial calls (func_sig f) (f_async f) (map (call_func f) calls)
          (func_sig f) (f_dict f) (model_again f)
          (map obs_of_built (fst (run_steps f steps))) (snd (run_steps f steps))
          (match snd (run_steps f steps) with
-          | None => map (call_top f (rev (fst (run_steps f steps))) fwd) calls
+          | None => map (call_top f (rev (fst (run_steps f steps))) fwd partial) calls
           | Some _ => []
           end).
 
@@ -295,16 +295,34 @@ Proof.
   intro H. apply Forall_forall. intros x Hx. apply in_rev in Hx. rewrite Forall_forall in H. apply H. exact Hx.
 Qed.
 
+(* [n] levels that pass their parameters on under one structured signature: a call that
+   binds under it runs through all of them *)
+Lemma chain_n_plain b2 : good b2 -> forall n gs c env,
+  Forall (passes_on (fb_sig b2)) (firstn n gs) -> n <= length gs ->
+  NoDup (keys (c_kw c)) -> bind (sg_params (fb_sig b2)) c = Ok env ->
+  call_chain_n gs n c = Ok [].
+Proof.
+  intros G2. induction n as [|n IH]; intros gs c env FA LE NDk B; [reflexivity|].
+  destruct gs as [|g below]; [simpl in LE; inversion LE|].
+  cbn [firstn] in FA. inversion FA as [|? ? PG PB]; subst.
+  pose proof (level_call b2 g c G2 PG NDk) as L. rewrite B in L.
+  destruct L as [L1 [c' [EV [B' ND']]]]. cbn [call_chain_n]. rewrite L1, EV.
+  apply (IH below c' env PB); [simpl in LE; apply le_S_n; exact LE | exact ND' | exact B'].
+Qed.
+
 Section TopCalls.
-  Variables (f : pyfunc) (gtop : built) (below : list built) (b2 : fbuilder) (fwd : bool).
+  Variables (f : pyfunc) (gtop : built) (below : list built) (b2 : fbuilder) (fwd : bool) (partial : nat).
   Hypothesis WF : wf_func f.
   Hypothesis G2 : good b2.
   Hypothesis PT : passes_on (fb_sig b2) gtop.
-  (* forwarding wrappers only in a stack of plain wraps *)
+  (* wrappers forwarding all the way down only in a stack of plain wraps *)
   Hypothesis PLAIN : fwd = true -> fb_sig b2 = func_sig f /\ Forall (passes_on (func_sig f)) below.
+  (* otherwise the levels that are entered have the outermost signature *)
+  Hypothesis PARTIAL : fwd = false ->
+    Forall (passes_on (fb_sig b2)) (firstn partial below) /\ partial <= length below.
 
   Lemma model_call_ok c : NoDup (keys (c_kw c)) ->
-    let '(saw, out) := call_top f (gtop :: below) fwd c in
+    let '(saw, out) := call_top f (gtop :: below) fwd partial c in
     is_type_error out = true /\
     is_ok out = accepts (sg_params (fb_sig b2)) c /\
     (match saw with Some _ => true | None => false end) = is_ok out /\
@@ -321,24 +339,27 @@ Section TopCalls.
         { intro x. unfold call_func. rewrite (sig_of_func_sig f (wf_len f WF)), ES. reflexivity. }
         rewrite (chain_plain f WF below c' PB ND'), (CF c'), B'.
         repeat split; try reflexivity. intros _. rewrite (CF c), B. reflexivity.
-      + repeat split; try reflexivity. discriminate.
+      + destruct (PARTIAL eq_refl) as [PF PLE].
+        rewrite (chain_n_plain b2 G2 partial below c' env PF PLE ND' B').
+        repeat split; try reflexivity. discriminate.
     - rewrite L. apply bind_raises_type_error in B as E. subst e. repeat split; try reflexivity.
       intro F. destruct (PLAIN F) as [ES _]. unfold call_func.
       rewrite (sig_of_func_sig f (wf_len f WF)), <- ES, B. reflexivity.
   Qed.
 End TopCalls.
 
-Lemma calls_ok_model f gtop below b2 fwd k :
+Lemma calls_ok_model f gtop below b2 fwd partial k :
   wf_func f -> good b2 -> passes_on (fb_sig b2) gtop ->
   (fwd = true -> fb_sig b2 = func_sig f /\ Forall (passes_on (func_sig f)) below) ->
+  (fwd = false -> Forall (passes_on (fb_sig b2)) (firstn partial below) /\ partial <= length below) ->
   k_forward k = fwd ->
   forall calls, Forall (fun c => NoDup (keys (c_kw c))) calls ->
-  calls_ok k (fb_sig b2) calls (map (call_func f) calls) (map (call_top f (gtop :: below) fwd) calls) = true.
+  calls_ok k (fb_sig b2) calls (map (call_func f) calls) (map (call_top f (gtop :: below) fwd partial) calls) = true.
 Proof.
-  intros WF G2 PT PL KF. induction calls as [|c r IH]; intro ND; [reflexivity|].
+  intros WF G2 PT PL PA KF. induction calls as [|c r IH]; intro ND; [reflexivity|].
   inversion ND as [|c0 r0 NDc NDr]; subst c0 r0. cbn [map calls_ok].
-  pose proof (model_call_ok f gtop below b2 fwd WF G2 PT PL c NDc) as H.
-  destruct (call_top f (gtop :: below) fwd c) as [saw out]. destruct H as [H1 [H2 [H3 [H5 H4]]]].
+  pose proof (model_call_ok f gtop below b2 fwd partial WF G2 PT PL PA c NDc) as H.
+  destruct (call_top f (gtop :: below) fwd partial c) as [saw out]. destruct H as [H1 [H2 [H3 [H5 H4]]]].
   rewrite H1, H2, bool_eqb_refl, H3, H2, bool_eqb_refl, (IH NDr), KF, <- H5, (option_eqb_refl _ call_eqb_refl). simpl.
   destruct fwd.
   - rewrite (H4 eq_refl), rb_eqb_refl. destruct (plain k); reflexivity.
@@ -351,17 +372,139 @@ Proof.
   rewrite E, S, (sig_of_func_sig f (wf_len f WF)). reflexivity.
 Qed.
 
+(* ---- splitting a stack: the top [partial] steps on top of the rest --------------------------------- *)
+Definition last_func (h : pyfunc) (gs : list built) : pyfunc := last (map b_func gs) h.
+
+Lemma last_cons {A} (l : list A) : forall x d, last (x :: l) d = last l x.
+Proof.
+  induction l as [|y r IH]; intros x d; [reflexivity|].
+  change (last (x :: y :: r) d) with (last (y :: r) d). rewrite (IH y d), (IH y x). reflexivity.
+Qed.
+
+Lemma last_func_cons h g gs : last_func h (g :: gs) = last_func (b_func g) gs.
+Proof. unfold last_func. cbn [map]. apply last_cons. Qed.
+
+Lemma run_steps_app : forall l1 l2 h,
+  run_steps h (l1 ++ l2) =
+  match snd (run_steps h l1) with
+  | Some e => (fst (run_steps h l1), Some e)
+  | None => (fst (run_steps h l1) ++ fst (run_steps (last_func h (fst (run_steps h l1))) l2),
+             snd (run_steps (last_func h (fst (run_steps h l1))) l2))
+  end.
+Proof.
+  induction l1 as [|st r IH]; intros l2 h.
+  - unfold last_func. simpl. destruct (run_steps h l2); reflexivity.
+  - cbn [app]. rewrite !run_steps_cons.
+    destruct (update_wrapper_opt (s_options st) (s_id st) h (s_injected st) (s_expected st)) as [g|e]; [|reflexivity].
+    cbn [fst snd]. rewrite IH. destruct (snd (run_steps (b_func g) r)); [reflexivity|].
+    rewrite last_func_cons. reflexivity.
+Qed.
+
+(* which [partial] are allowed: the top [partial] steps are plain and a level remains below them *)
+Definition partial_ok (steps : list step) (partial : nat) : bool :=
+  Nat.ltb partial (length steps) && forallb plain_step (skipn (length steps - partial) steps).
+
+Lemma last_func_rev h gs g rest : rev gs = g :: rest -> last_func h gs = b_func g.
+Proof.
+  intro E. assert (gs = rev rest ++ [g]) by (rewrite <- (rev_involutive gs), E; reflexivity). subst gs.
+  unfold last_func. rewrite map_app. simpl. apply last_last.
+Qed.
+
+Lemma run_steps_wf : forall steps h, wf_func h -> steps_nonzero steps ->
+  Forall (fun g => wf_func (b_func g)) (fst (run_steps h steps)) /\
+  (snd (run_steps h steps) = None -> length (fst (run_steps h steps)) = length steps).
+Proof.
+  induction steps as [|st r IH]; intros h WF NZ; [split; [constructor | reflexivity]|].
+  inversion NZ as [|? ? NZ1 NZr]; subst. rewrite run_steps_cons.
+  pose proof (update_wrapper_opt_refines (s_options st) (s_id st) h (s_injected st) (s_expected st) WF NZ1) as R.
+  destruct (update_wrapper_opt (s_options st) (s_id st) h (s_injected st) (s_expected st)) as [g|e];
+    [|split; [constructor | discriminate]].
+  destruct (spec_wraps_opt (o_inject_to_varkw (s_options st)) (func_sig h) (s_injected st) (s_expected st)) as [s'|e']; [|exfalso; exact R].
+  destruct R as [_ [_ [_ [_ [_ [_ [_ [_ [_ [[WFg _] _]]]]]]]]]].
+  destruct (IH (b_func g) WFg NZr) as [F L]. cbn [fst snd]. split.
+  - constructor; assumption.
+  - intro E. simpl. f_equal. apply L. exact E.
+Qed.
+
+Lemma passes_on_sig_eq s1 s2 g : passes_on s1 g -> passes_on s2 g -> s1 = s2.
+Proof. intros [A _] [B _]. congruence. Qed.
+
+(* the levels entered by partially forwarding wrappers have the outermost signature *)
+Lemma partial_levels f steps partial : wf_func f -> steps_nonzero steps ->
+  partial_ok steps partial = true -> snd (run_steps f steps) = None ->
+  forall gtop below b2, rev (fst (run_steps f steps)) = gtop :: below ->
+  passes_on (fb_sig b2) gtop ->
+  Forall (passes_on (fb_sig b2)) (firstn partial below) /\ partial <= length below.
+Proof.
+  intros WF NZ PO E gtop below b2 RV PT.
+  unfold partial_ok in PO. apply andb_true_iff in PO as [PL1 PL2]. apply Nat.ltb_lt in PL1.
+  destruct partial as [|p]; [split; [constructor | apply Nat.le_0_l]|].
+  remember (firstn (length steps - S p) steps) as lower eqn:EL.
+  remember (skipn (length steps - S p) steps) as upper eqn:EU.
+  assert (ES : steps = lower ++ upper) by (subst; symmetry; apply firstn_skipn).
+  assert (LU : length upper = S p) by (subst upper; rewrite skipn_length; lia).
+  assert (LL : lower <> []).
+  { intro H. assert (length lower = 0) by (rewrite H; reflexivity).
+    subst lower. rewrite firstn_length in H0. lia. }
+  assert (NZl : steps_nonzero lower /\ steps_nonzero upper).
+  { unfold steps_nonzero in *. rewrite ES in NZ. apply Forall_app in NZ. exact NZ. }
+  destruct NZl as [NZl NZu].
+  (* split the run *)
+  rewrite ES, run_steps_app in E, RV.
+  destruct (snd (run_steps f lower)) as [e1|] eqn:E1; [cbn [snd] in E; discriminate E|].
+  cbn [fst snd] in E, RV.
+  set (gs_l := fst (run_steps f lower)) in *.
+  set (h' := last_func f gs_l) in *.
+  set (gs_u := fst (run_steps h' upper)) in *.
+  (* the lower part built something; its outermost level is h' *)
+  destruct (run_steps_wf lower f WF NZl) as [WFl LENl]. fold gs_l in WFl, LENl. specialize (LENl E1).
+  destruct (rev gs_l) as [|g_l rest_l] eqn:RL.
+  { exfalso. apply LL. assert (gs_l = []) by (rewrite <- (rev_involutive gs_l), RL; reflexivity).
+    rewrite H in LENl. destruct lower; [reflexivity | discriminate LENl]. }
+  assert (Hh : h' = b_func g_l) by (apply (last_func_rev f gs_l g_l rest_l RL)).
+  assert (WFh : wf_func h').
+  { rewrite Hh. rewrite Forall_forall in WFl. apply WFl. apply in_rev. rewrite RL. left. reflexivity. }
+  (* the lower part's outermost level passes on its own signature = func_sig h' *)
+  destruct (levels_model f lower f WF) as [top_l [_ RESTl]]; [repeat split | exact NZl |].
+  destruct (RESTl E1) as [TOPl _]. fold gs_l in TOPl.
+  destruct (TOPl g_l rest_l RL) as [PTl _].
+  assert (PGL : passes_on (func_sig h') g_l).
+  { destruct PTl as [A B]. pose proof (sig_of_func_sig h' (wf_len h' WFh)) as X. rewrite Hh in X.
+    rewrite A in X. assert (top_l = func_sig (b_func g_l)) by congruence. subst top_l.
+    rewrite Hh. split; assumption. }
+  (* the upper part: plain wraps over h' *)
+  destruct (levels_model h' upper h' WFh) as [top_u [_ RESTu]]; [repeat split | exact NZu |].
+  destruct (RESTu E) as [_ PLNu]. fold gs_u in PLNu. specialize (PLNu PL2).
+  destruct (run_steps_wf upper h' WFh NZu) as [_ LENu]. fold gs_u in LENu. specialize (LENu E). rewrite LU in LENu.
+  (* shape of the reversed list *)
+  rewrite rev_app_distr, RL in RV.
+  destruct (rev gs_u) as [|g_t rest_u] eqn:RU.
+  { exfalso. assert (gs_u = []) by (rewrite <- (rev_involutive gs_u), RU; reflexivity). rewrite H in LENu. discriminate. }
+  cbn [app] in RV. inversion RV; subst g_t below. clear RV.
+  assert (LRU : length rest_u = p).
+  { assert (length (rev gs_u) = S p) by (rewrite rev_length; exact LENu). rewrite RU in H. simpl in H. lia. }
+  assert (PU : Forall (passes_on (func_sig h')) (gtop :: rest_u)).
+  { rewrite <- RU. apply Forall_rev'. exact PLNu. }
+  inversion PU as [|x0 l0 PGT PRU]; subst x0 l0.
+  assert (EQ : fb_sig b2 = func_sig h') by (eapply passes_on_sig_eq; eassumption).
+  rewrite EQ. split.
+  - rewrite firstn_app, LRU. replace (S p - p) with 1 by lia.
+    rewrite firstn_all2 by lia. cbn [firstn]. apply Forall_app. split; [exact PRU | constructor; [exact PGL | constructor]].
+  - rewrite app_length. simpl. lia.
+Qed.
+
 (* THE MAIN REFINEMENT: for every well-formed base function, every non-empty
    stack of wraps steps and all calls with distinct keywords, the model's
    observation satisfies the Spec predicate [holds]. *)
-Theorem model_holds f steps fwd calls :
+Theorem model_holds f steps fwd partial calls :
   wf_func f -> steps <> [] -> steps_nonzero steps ->
   Forall (fun c => NoDup (keys (c_kw c))) calls ->
   (fwd = true -> forallb plain_step steps = true) ->
-  holds (model_case f steps fwd calls) = true.
+  (fwd = false -> partial_ok steps partial = true) ->
+  holds (model_case f steps fwd partial calls) = true.
 Proof.
-  intros WF NE NZ NDc PL. unfold holds, model_case.
-  cbn [k_f k_fsig k_fasync k_calls k_direct k_steps k_forward k_levels k_fail k_top_calls k_fsig_after k_fdict_after k_again].
+  intros WF NE NZ NDc PL PA. unfold holds, model_case.
+  cbn [k_f k_fsig k_fasync k_calls k_direct k_steps k_forward k_partial k_levels k_fail k_top_calls k_fsig_after k_fdict_after k_again].
   rewrite (func_sig_wf f WF).
   assert (DIR : map (bind (sg_params (func_sig f))) calls = map (call_func f) calls).
   { apply map_ext. intro c. unfold call_func. rewrite (sig_of_func_sig f (wf_len f WF)). reflexivity. }
@@ -379,10 +522,11 @@ Proof.
     destruct (update_wrapper_opt (s_options st) (s_id st) f (s_injected st) (s_expected st)) as [g0|e0]; [|discriminate E].
     simpl in RV. destruct (rev (fst (run_steps (b_func g0) r))); discriminate RV.
   - destruct (TOP gtop below eq_refl) as [PT [b2 [G2 ET]]]. subst top.
-    apply (calls_ok_model f gtop below b2 fwd _ WF G2 PT); [|reflexivity|exact NDc].
-    intro F. specialize (PLN (PL F)). apply Forall_rev' in PLN. rewrite RV in PLN.
-    inversion PLN as [|? ? P1 P2]; subst. split; [|exact P2].
-    destruct PT as [S1 _]. destruct P1 as [S2 _]. congruence.
+    apply (calls_ok_model f gtop below b2 fwd partial _ WF G2 PT); [| |reflexivity|exact NDc].
+    + intro F. specialize (PLN (PL F)). apply Forall_rev' in PLN. rewrite RV in PLN.
+      inversion PLN as [|? ? P1 P2]; subst. split; [|exact P2].
+      destruct PT as [S1 _]. destruct P1 as [S2 _]. congruence.
+    + intro F. apply (partial_levels f steps partial WF NZ (PA F) E gtop below b2 RV PT).
 Qed.
 
 (* ... and the comparison with the model accepts the model's own observation *)
@@ -392,7 +536,7 @@ Proof.
   induction gs as [|g r IH]; intro H; [reflexivity|]. inversion H as [|? ? [s Hs] Hr]; subst.
   cbn [map forall2b]. rewrite (IH Hr), andb_true_r. unfold level_agree, obs_of_built.
   cbn [bo_sig bo_name bo_doc bo_module bo_dict bo_async]. rewrite Hs. cbn [res_eqb].
-  rewrite sig_eqb_refl, Nat.eqb_refl, !(option_eqb_refl Nat.eqb Nat.eqb_refl), dict_equiv_refl, bool_eqb_refl. reflexivity.
+  unfold dict_rel. rewrite sig_eqb_refl, Nat.eqb_refl, !(option_eqb_refl Nat.eqb Nat.eqb_refl), bool_eqb_refl. reflexivity.
 Qed.
 
 Lemma run_steps_sigs : forall steps h, wf_func h -> steps_nonzero steps ->
@@ -407,12 +551,12 @@ Proof.
   cbn [fst]. constructor; [exists s'; exact SG | apply IH; assumption].
 Qed.
 
-Theorem model_agrees f steps fwd calls :
+Theorem model_agrees f steps fwd partial calls :
   wf_func f -> steps_nonzero steps ->
-  agree (model_case f steps fwd calls) = true.
+  agree (model_case f steps fwd partial calls) = true.
 Proof.
   intros WF NZ. unfold agree, model_case.
-  cbn [k_f k_fsig k_fasync k_calls k_direct k_steps k_forward k_levels k_fail k_top_calls k_fsig_after k_fdict_after k_again].
+  cbn [k_f k_fsig k_fasync k_calls k_direct k_steps k_forward k_partial k_levels k_fail k_top_calls k_fsig_after k_fdict_after k_again].
   rewrite (sig_of_func_sig f (wf_len f WF)). cbn [res_eqb]. rewrite sig_eqb_refl, bool_eqb_refl.
   rewrite (list_eqb_refl _ rb_eqb_refl), dict_equiv_refl, (option_eqb_refl _ sig_eqb_refl). cbn [andb].
   pose proof (run_steps_sigs steps f WF NZ) as SG.
